@@ -253,7 +253,8 @@ class Graph:
                             lab = 'tokio'      # runtime-context panics (no runtime / no time driver): the argument text is irrelevant to the key
                         src = Source(p, 'may-panic-call', short(c), lab, where, macro)
                         src.discharged = lock_poison(t) or (consumed_prefix(self.facts, p, t.get('fn_sp') or sp, 'advance') if (c or '').endswith('>::advance') else None) \
-                            or (bounded_amount(self.facts, p, t.get('fn_sp') or sp) if (c or '').rsplit('::', 1)[-1] in ('reserve', 'with_capacity', 'resize', 'reserve_exact') else None)
+                            or (bounded_amount(self.facts, p, t.get('fn_sp') or sp) if (c or '').rsplit('::', 1)[-1] in ('reserve', 'with_capacity', 'resize', 'reserve_exact') else None) \
+                            or (guarded_split(self.facts, p, t.get('fn_sp') or sp) if (c or '').rsplit('::', 1)[-1] in ('split_at', 'split_at_mut') else None)
                         out.append(src)
         for src in out:
             # the key names the enclosing *function*: code may move between a function, its closures and its async block
@@ -684,3 +685,29 @@ def clippy_agreement(ctx, rule, G, parent, regions, srcs, sites):
     ctx.add(rule, 'clippy restriction lints vs MIR panic sources', '', not missing,
             'constructs that clippy reports inside the cone\'s bodies but the MIR engine did not list as panic sources (engine fault): %s' % missing[:6], nontrivial=False)
     return inside
+
+
+def guarded_split(facts, body_path, sp):
+    """D6: `x.split_at(n)` panics when n > x.len(); discharged when a comparison that holds at the call gives n <= x.len()
+    (typically the early return of `if x.len() < n { return .. }`), with neither operand reassigned in between."""
+    rec = hir_owner(facts, body_path)
+    if rec is None:
+        return None
+    B = _hirq.Body(facts, rec)
+    cands = [n for n in B.nodes if n['k'] == 'MethodCall' and n.get('name') in ('split_at', 'split_at_mut') and n.get('sp') and
+             (list(n['sp'][:5]) == list(sp[:5]) or (n['sp'][0] == sp[0] and n['sp'][3:5] == sp[3:5]))]
+    if len(cands) != 1 or len(cands[0]['args']) != 1:
+        return None
+    call = cands[0]
+    x, n = call['recv'], call['args'][0]
+    if _mutated(B, x) or _mutated(B, n):
+        return None
+    flip = {'Lt': 'Gt', 'Le': 'Ge', 'Gt': 'Lt', 'Ge': 'Le', 'Eq': 'Eq', 'Ne': 'Ne'}
+    def is_len_of_x(e):
+        e = _hirq.peel_refs(e)
+        return e['k'] == 'MethodCall' and e['name'] in ('len', 'input_len') and not e['args'] and expr_eq(facts, e['recv'], x)
+    for a, o, b in known_comparisons(B, call):
+        for (p, oo, q) in ((a, o, b), (b, flip[o], a)):
+            if is_len_of_x(p) and expr_eq(facts, q, n) and oo in ('Ge', 'Gt', 'Eq'):
+                return 'guarded: a comparison that holds at the call gives len >= the split position'
+    return None
